@@ -243,6 +243,79 @@ def rule_response_guards(chk):
                               "is silently wrong" % (w1, "before" if guard_at is not None else "without", w), instance=inst)
 
 
+def _root_name(e):
+    while isinstance(e, (ast.Subscript, ast.Attribute)):
+        e = e.value
+    return e.id if isinstance(e, ast.Name) else None
+
+
+def rule_response_scratch(chk):
+    """In the full-response drivers the force on atom A is `einsum(vtmp, dm)`, with vtmp the per-atom scratch that is then
+    added to vmat: every term of vmat must go through the scratch.  Inside the loop over grids_response_cc the returned
+    matrix may only appear as `vmat[(k)] += <scratch>`, and every scratch added to it also feeds `excsum[...] +=`."""
+    n = 0
+    for rel in (RKSG, UKSG):
+        for name in ("get_vxc_full_response", "get_vxc_nldf_full_response"):
+            fn = ks.locate(chk.tree, rel, name)[1]
+            loops = [x for x in pf.walk_no_nested(fn) if isinstance(x, ast.For) and "grids_response_cc" in pf.src(x.iter)]
+            rets = [x for x in pf.walk_no_nested(fn) if isinstance(x, ast.Return) and isinstance(x.value, ast.Tuple)
+                    and len(x.value.elts) == 2]
+            if not loops or not rets:
+                raise core.AnalysisError("%s:%s: loop over grids_response_cc / `return excsum, -vmat` not found" % (rel, name))
+            mats = {nm for r in rets for nm in ks._names(r.value.elts[1])}
+            accs = {nm for r in rets for nm in ks._names(r.value.elts[0])}
+            for lp in loops:
+                for M in sorted(mats):
+                    inst = "%s:%s %s only receives the per-atom scratch inside the response loop" % (rel, name, M)
+                    bad, scratch, undecided = None, {}, None
+                    for x in ast.walk(lp):
+                        if not (isinstance(x, ast.Name) and x.id == M):
+                            continue
+                        st = x
+                        while not isinstance(st, ast.stmt):
+                            st = pf.parent(st)
+                        tgt = st.target if isinstance(st, ast.AugAssign) else None
+                        if tgt is not None and isinstance(st.op, ast.Add) and _root_name(tgt) == M \
+                                and isinstance(st.value, ast.Name) and any(y is x for y in ast.walk(tgt)):
+                            scratch[st.value.id] = st
+                        elif isinstance(st, ast.Expr) and isinstance(st.value, ast.Call) and \
+                                any(any(y is x for y in ast.walk(a_)) for a_ in st.value.args):
+                            bad = bad or st
+                        elif isinstance(st, (ast.AugAssign, ast.Assign)) and any(
+                                y is x for t in ([st.target] if isinstance(st, ast.AugAssign) else st.targets) for y in ast.walk(t)):
+                            bad = bad or st
+                        else:
+                            undecided = undecided or st
+                    if bad is not None:
+                        chk.violation("grad-response-scratch", rel, name, "%s written by %s" % (M, batch.head_text(bad)[:60]),
+                                      bad.lineno,
+                                      "inside the per-atom loop `%s` adds a term straight into %s instead of into the per-atom "
+                                      "scratch (%s): the term is missing from `%s[atm_id] += einsum(scratch, dm)`, i.e. from the "
+                                      "force on the atom that owns the grid block (the sibling terms and the other full-response "
+                                      "drivers all go through the scratch)" % (
+                                          pf.src(bad)[:80], M, ", ".join(sorted(scratch)) or "vtmp", sorted(accs)[0] if accs else "excsum"),
+                                      instance=inst)
+                        n += 1
+                        continue
+                    if undecided is not None or not scratch:
+                        raise core.AnalysisError("%s:%s: use of %s in `%s` is not a form the analysis reads" % (
+                            rel, name, M, pf.src(undecided)[:70] if undecided is not None else "<none>"))
+                    missing = [sname for sname in scratch if not any(
+                        isinstance(y, ast.AugAssign) and _root_name(y.target) in accs and sname in ks._names(y.value)
+                        for y in ast.walk(lp))]
+                    n += 1
+                    if missing:
+                        st = scratch[missing[0]]
+                        chk.violation("grad-response-scratch", rel, name, "%s not contracted into the force" % missing[0], st.lineno,
+                                      "`%s` adds %s to the matrix, but no `%s[...] += ...%s...` contracts it with the density "
+                                      "matrix in the same loop" % (pf.src(st), missing[0], sorted(accs)[0] if accs else "excsum",
+                                                                   missing[0]), instance=inst)
+                    else:
+                        chk.ok("grad-response-scratch", inst)
+    if n == 0:
+        raise core.AnalysisError("grad-response-scratch: nothing matched")
+
+
 def rule_half(chk):
     ks.half_rule(chk, "grad-half", chk.tree, [(RKSG, n) for n in GRADS] + [(UKSG, n) for n in GRADS])
 
@@ -507,6 +580,7 @@ def _analyse_rules(chk):
     chk.rule("unsupported-raise", "SDMX / NLOF models raise NotImplementedError before any eval_xc_cider call")
     chk.rule("dispatch-total", "nuc_grad_method returns a matching Gradients class or raises on every path")
     chk.rule("grad-half", "density / tau rows of the weighted potential halved exactly once before the contraction")
+    chk.rule("grad-response-scratch", "full-response drivers add every vmat term through the per-atom scratch that feeds excsum")
     chk.rule("grad-arglist-slots", "a *args list is not used after a loop that re-points its slots per iteration")
     chk.rule("grad-xyz-slots", "conv_interpolation.c: every member of an x/y/z slot triple is used (index slots equally often); tables list 3 distinct slots")
     chk.rule("grad-spin-mirror", "uks_grad: a statement addressing one literal spin slot has its alpha<->beta mirror image")
@@ -519,6 +593,8 @@ def _analyse_rules(chk):
     chk.guard(rule_xyz_slots)
     chk.guard(rule_dispatch_classes)
     chk.guard(rule_response_guards)
+    chk.guard(rule_response_scratch)
+    chk.floor("grad-response-scratch", 2, "4 full-response drivers")
     chk.guard(rule_arglist_slots)
     chk.floor("grad-arglist-slots", 1, "ctypes argument lists of the interpolator")
     chk.floor("grad-xyz-slots", 8, "x/y/z component triples of the l=1 / gradient routines")
@@ -597,6 +673,10 @@ def mutants(tree):
                "        _check_response_weights(grids, weight, ip0, ip1)\n", "", expect="unsupported-raise"),
         Mutant("response weights compared with themselves", RKSG,
                "    ref = grids.grids_indexer.all_weights[ip0:ip1]\n", "    ref = weight\n", expect="unsupported-raise"),
+        Mutant("UKS tau response term bypasses the per-atom scratch", UKSG,
+               "            rks_grad._tau_grad_dot_(vtmp, mol, ao, wv[1, 4], mask, ao_loc, True)\n        vmat[1] += vtmp\n",
+               "        vmat[1] += vtmp\n        if xctype == \"MGGA\":\n            rks_grad._tau_grad_dot_(vmat[1], mol, ao, wv[1, 4], mask, ao_loc, True)\n",
+               count=1, expect="grad-response-scratch"),
         Mutant("RKS branch accepts every Kohn-Sham class", DFT, "if isinstance(self, dft.rks.RKS):",
                "if isinstance(self, dft.rks.KohnShamDFT) and not isinstance(self, dft.uks.UKS):", expect="dispatch-total"),
         Mutant("l=1 gradient block moved behind the derivative-table loop", LCAO_INTERP, "", "", fn=_l1_block_after_loop,
